@@ -23,7 +23,10 @@ EXPLANATION = (
     "interval conditions and use the same table rows (i, gloArgc-1, 0) in corresponding returns. P4: inclHandleLine stores "
     "a value depending on its lno parameter into fileState.lineNumber and fnameParse(fname) into fileState.curFname, then "
     "calls sposGrowGloLineTbl with exactly those fields and the serial line; every sposNew in include.c takes file, line and "
-    "serial line from the same three places. Not decided: which token a message is attached to.")
+    "serial line from the same three places. P5: comsgReportLine prints one source excerpt, taken from its first message, "
+    "for the whole group it is given; the test that ends a group in comsgReportFile must therefore compare a key that "
+    "identifies a physical line: sposGlobalLine (serial line number over all included files), or both sposFile and "
+    "sposLine; sposLine or sposChar alone is a violation, any other key is reported as unknown to the rule. Not decided: which token a message is attached to.")
 
 
 def var_const(facts, name):
@@ -274,6 +277,57 @@ def p4(rep, f):
     rep.floor("sposNew calls in include.c", n, 3)
 
 
+LINE_KEYS_INJECTIVE = {"sposGlobalLine"}           # serial number of the physical line over all included files
+LINE_KEYS_PARTIAL = {"sposLine", "sposChar"}       # line within one file / column: equal for different physical lines
+
+
+def p5(rep):
+    """Messages printed under one source excerpt are on one physical line."""
+    f = common.extract("comsg.c", trees=["comsgReportFile", "comsgReportLine"])
+    fl = f.func("comsgReportLine")
+    heads = [c for c in common.calls(fl["body"], "comsgPrintLine")]
+    if len(heads) != 1 or "[0]" not in common.render(heads[0]["c"][2]):
+        raise AnalysisBroken("comsgReportLine no longer prints one excerpt taken from its first message")
+    fn = f.func("comsgReportFile")
+    par = common.parents(fn["body"])
+    groups = [c for c in common.calls(fn["body"], "comsgReportLine")]
+    if len(groups) != 1:
+        raise AnalysisBroken("comsgReportFile: expected one call of comsgReportLine")
+    # the loop that extends a group: a for statement whose body breaks on a comparison
+    outer = par.get(groups[0]["id"])
+    while outer is not None and outer["k"] != "ForStmt":
+        outer = par.get(outer["id"])
+    if outer is None:
+        raise AnalysisBroken("comsgReportFile: grouping loop not found")
+    keys, tests = set(), 0
+    for x in common.walk(outer["c"][3]):
+        if x["k"] == "IfStmt" and any(y["k"] == "BreakStmt" for y in common.walk(x["c"][1])):
+            tests += 1
+            for c in common.calls(x["c"][0]):
+                keys.add(c.get("callee"))
+            # a variable compared: the key it was assigned from
+            for v in common.walk(x["c"][0]):
+                if v["k"] == "DeclRefExpr" and v.get("dk") == "var":
+                    for a in common.walk(outer["c"][3]):
+                        if a["k"] == "BinaryOperator" and a["op"] == "=" and common.strip(a["c"][0]) is not None \
+                                and common.strip(a["c"][0]).get("did") == v.get("did"):
+                            for c in common.calls(a["c"][1]):
+                                keys.add(c.get("callee"))
+    keys.discard(None)
+    where = "comsg.c:%d (comsgReportFile)" % outer["l"]
+    if tests != 1 or not keys:
+        raise AnalysisBroken("comsgReportFile: the test that ends a group of messages was not recognised")
+    if keys & LINE_KEYS_INJECTIVE or {"sposFile", "sposLine"} <= keys:
+        rep.ok("P5", "group-key-identifies-line", sample={"keys": sorted(keys)})
+    elif keys <= LINE_KEYS_PARTIAL | {"sposFile"}:
+        rep.violation("P5", "group-key-identifies-line", where,
+                      "consecutive messages are grouped under one `\"file\", line N: text` excerpt when %s agree; that does not "
+                      "identify a physical line (same line number in an included file or after #line), so a message is shown "
+                      "under another file's name and text" % sorted(keys))
+    else:
+        raise AnalysisBroken("comsgReportFile groups messages by %s, which this rule does not know" % sorted(keys))
+
+
 def run(tier, only=None):
     rep = common.Report("C15", tier, EXPLANATION)
     P = p1(rep)
@@ -282,5 +336,6 @@ def run(tier, only=None):
     p3(rep, f)
     fi = common.extract("include.c", all_trees=True)
     p4(rep, fi)
+    p5(rep)
     rep.analysed_count("translation units", 3)
     return rep
